@@ -467,6 +467,21 @@ pub fn visit_all<Vz: Visitor>(v: &mut Vz) {
         v.visit(e.cloneable().serde().debug().flags("collapse strings plain"));
     }
 
+    {
+        // deduplication over consecutive pairs of zero-sized elements: offsets beyond u32::MAX below a
+        // collapsing region
+        type S = Collapse<Consec<Owned<()>, IO>>;
+        type R = <S as Spec>::R;
+        v.visit(
+            Entry::<S>::new(vec![vec![], vec![()], vec![(); u32::MAX as usize], vec![(); 1usize << 62], vec![(); u32::MAX as usize - 1]])
+                .form("Vec<T>", f::owned::<R, Vec<()>>)
+                .form("&Vec<T>", f::by_ref::<R, Vec<()>>)
+                .cloneable()
+                .serde()
+                .flags("collapse plain zst"),
+        );
+    }
+
     // ---- string regions over other byte regions
     {
         type S = Str<Consec<Owned<u8>, IO>>;
